@@ -323,6 +323,9 @@ func (s *System) Control() *SystemControl {
 
 // SetControl atomically gets the System's controls.
 func (s *System) SetControl(control SystemControl) {
+	// As in 'NewSystem': without it, concurrent first requests for
+	// a location (with LocationTTL 'Never') each load it.
+	control.CachePending = true
 	atomic.StorePointer(&s.control, unsafe.Pointer(&control))
 	// SetDefaultHTTPClientSpec(control.InsecureSkipVerify)
 }
